@@ -35,7 +35,7 @@ m={
  "setup_cmd":"./check setup",
  "hooks":{
    "guard":"--cfg rs_opw_kinematics_verif",
-   "enable":"RUSTFLAGS via /verif/sim/.cargo/config.toml ([build] rustflags = [\"--cfg\", \"rs_opw_kinematics_verif\"]); /repo/src is compiled in place through the shadow manifest /verif/sim/shadow/Cargo.toml",
+   "enable":"RUSTFLAGS via /verif/sim/.cargo/config.toml ([build] rustflags = [\"--cfg\", \"rs_opw_kinematics_verif\"]); on every check /repo/src is copied (only changed files) into /verif/sim/target/repo-src with std sync primitives and Instant rewritten to the simulator's (tools/rewrite_src.py) and compiled through the shadow manifest /verif/sim/shadow/Cargo.toml",
    "baseline_off_cmd":"cd /repo && cargo nextest run --workspace --no-fail-fast --test-threads 8 --offline || (cd /repo && cargo test --workspace --no-fail-fast --offline)",
    "source_commits": json.load(open('/verif/tools/hook_commits.json')),
    "add_only": True
